@@ -35,22 +35,23 @@ Proof.
   - intros H; right; apply IH, H.
 Qed.
 
-(* number of clients holding a subscription (open or closed, not yet unsubscribed) on T *)
-Definition has_sub_on (T : ts) (x : client) : bool :=
-  match c_sub x with Some _ => ts_eqb T (c_ts x) | None => false end.
+(* number of clients holding a subscription (open or closed, not yet unsubscribed) attached to the
+   topic buffer object [id] of T *)
+Definition has_sub_on (T : ts) (id : N) (x : client) : bool :=
+  match c_sub x with Some sb => ts_eqb T (c_ts x) && N.eqb id (s_buf sb) | None => false end.
 
-Fixpoint count_subs (T : ts) (l : list (N * client)) : nat :=
+Fixpoint count_subs (T : ts) (id : N) (l : list (N * client)) : nat :=
   match l with
   | [] => 0
-  | (_, x) :: r => (if has_sub_on T x then 1 else 0) + count_subs T r
+  | (_, x) :: r => (if has_sub_on T id x then 1 else 0) + count_subs T id r
   end.
 
 Definition b2n (b : bool) : nat := if b then 1 else 0.
 
-Lemma count_put_client T c x l :
+Lemma count_put_client T id c x l :
   NoDup (map fst l) ->
-  count_subs T (put_client c x l) + match find_client c l with Some y => b2n (has_sub_on T y) | None => 0 end
-  = count_subs T l + b2n (has_sub_on T x).
+  count_subs T id (put_client c x l) + match find_client c l with Some y => b2n (has_sub_on T id y) | None => 0 end
+  = count_subs T id l + b2n (has_sub_on T id x).
 Proof.
   induction l as [|[c' y] r IH]; cbn [put_client find_client count_subs map fst]; intros Hnd.
   - unfold b2n. lia.
@@ -73,9 +74,9 @@ Proof.
         -- destruct Hin as [->|Hin]; [left; reflexivity|right; apply IH, Hin].
 Qed.
 
-Lemma count_map T f l :
-  (forall x, has_sub_on T (f x) = has_sub_on T x) ->
-  count_subs T (map (fun cx => (fst cx, f (snd cx))) l) = count_subs T l.
+Lemma count_map T id f l :
+  (forall x, has_sub_on T id (f x) = has_sub_on T id x) ->
+  count_subs T id (map (fun cx => (fst cx, f (snd cx))) l) = count_subs T id l.
 Proof.
   intros Hf. induction l as [|[c y] r IH]; cbn [map count_subs fst snd]; [reflexivity|].
   rewrite Hf, IH. reflexivity.
@@ -195,21 +196,12 @@ Proof.
   - change (ievs (IEv (b_idx b) (e :: l) :: proj T r)) with ((e :: l) ++ ievs (proj T r)). reflexivity.
 Qed.
 
-(* the log contains no unannounced change *)
-Definition log_ok (log : list batch) : Prop := Forall (fun b => b_silent b = []) log.
-
-Lemma all_evs_ok log : log_ok log -> all_evs log = flat_map b_evs log.
-Proof.
-  induction 1 as [|b r Hb _ IH]; cbn [all_evs flat_map]; [reflexivity|].
-  fold (all_evs r). rewrite IH, Hb, app_nil_r. reflexivity.
-Qed.
-
 (* the T-rows of the store only depend on the T-items of the log *)
 Lemma aget_all_evs_proj T k log base :
-  log_ok log -> matches T k = true ->
+  matches T k = true ->
   aget k (apply (all_evs log) base) = aget k (apply (ievs (proj T log)) base).
 Proof.
-  intros Hok Hm. rewrite !aget_apply, ievs_proj, lastev_evs_for, Hm, all_evs_ok by exact Hok. reflexivity.
+  intros Hm. rewrite !aget_apply, ievs_proj, lastev_evs_for, Hm. reflexivity.
 Qed.
 
 (* ------------------------------------------------------------------ increasing indexes *)
